@@ -639,3 +639,265 @@ Proof.
   rewrite (using_newline_rule fs args uv t Hne Huv H1).
   unfold using_stmt_spec. rewrite H2. eexists; split; reflexivity.
 Qed.
+
+(* ================================================================== *)
+(* 6. width and overflow mark of every numeric field (no guard)        *)
+(* ================================================================== *)
+
+Definition np (s : str) : bool := forallb (fun c => negb (c =? ch_pct)) s.
+
+Lemma np_app a b : np (a ++ b) = np a && np b.
+Proof. apply forallb_app. Qed.
+
+Lemma np_cons c s : np (c :: s) = negb (c =? ch_pct) && np s.
+Proof. reflexivity. Qed.
+
+Lemma np_rev a : np (rev a) = np a.
+Proof.
+  induction a as [|c a IH]; [reflexivity|]. cbn [rev]. rewrite np_app, IH, np_cons.
+  cbn. rewrite andb_true_r. apply andb_comm.
+Qed.
+
+Lemma np_firstn n s : np s = true -> np (firstn n s) = true.
+Proof.
+  revert s; induction n as [|n IH]; intros [|c s] H; try reflexivity.
+  cbn [firstn]. rewrite np_cons in *. apply andb_true_iff in H as [H1 H2].
+  rewrite H1, (IH s H2). reflexivity.
+Qed.
+
+Lemma np_skipn n s : np s = true -> np (skipn n s) = true.
+Proof.
+  revert s; induction n as [|n IH]; intros [|c s] H; try reflexivity; try exact H.
+  cbn [skipn]. rewrite np_cons in H. apply andb_true_iff in H as [_ H2]. now apply IH.
+Qed.
+
+Lemma np_repeat c n : (c =? ch_pct) = false -> np (repeat c n) = true.
+Proof. intro H. induction n as [|n IH]; [reflexivity|]. cbn [repeat]. now rewrite np_cons, H, IH. Qed.
+
+Lemma np_spaces n : np (spaces n) = true.
+Proof. apply np_repeat. reflexivity. Qed.
+
+Lemma np_digits s : forallb is_digit s = true -> np s = true.
+Proof.
+  induction s as [|c s IH]; intro H; [reflexivity|].
+  cbn [forallb] in H. apply andb_true_iff in H as [Hc Hs].
+  rewrite np_cons, (IH Hs), andb_true_r.
+  unfold is_digit in Hc. unfold ch_pct. lia.
+Qed.
+
+Lemma np_nat_digits z : 0 <= z -> np (nat_digits z) = true.
+Proof. intro H. apply np_digits. now apply nat_digits_all_digits. Qed.
+
+Lemma np_tl s : np s = true -> np (tl s) = true.
+Proof. destruct s as [|c s]; [reflexivity|]. rewrite np_cons. intro H. now apply andb_true_iff in H as [_ H]. Qed.
+
+Lemma np_removelast s : np s = true -> np (removelast s) = true.
+Proof.
+  induction s as [|c s IH]; [reflexivity|]. intro H. rewrite np_cons in H.
+  apply andb_true_iff in H as [H1 H2]. cbn [removelast]. destruct s as [|d s']; [reflexivity|].
+  rewrite np_cons, H1. cbn [andb]. now apply IH.
+Qed.
+
+Lemma np_group3_rev : forall s cnt, np s = true -> np (group3_rev s cnt) = true.
+Proof.
+  induction s as [|c s IH]; intros cnt H; [reflexivity|].
+  rewrite np_cons in H. apply andb_true_iff in H as [H1 H2].
+  cbn [group3_rev].
+  destruct cnt as [|[|[|[|cnt]]]]; rewrite ?np_cons, ?H1, ?IH by exact H2; reflexivity.
+Qed.
+
+Lemma np_group3 s : np s = true -> np (group3 s) = true.
+Proof. intro H. unfold group3. rewrite np_rev. apply np_group3_rev. now rewrite np_rev. Qed.
+
+Lemma span_digits_app s : let '(a, b) := span_digits s in a ++ b = s.
+Proof.
+  induction s as [|c s IH]; [reflexivity|]. cbn [span_digits].
+  destruct (is_digit c); [|reflexivity]. destruct (span_digits s) as [a b]. cbn [app]. now rewrite IH.
+Qed.
+
+Lemma np_group_int_part s : np s = true -> np (group_int_part s) = true.
+Proof.
+  intro H. unfold group_int_part. pose proof (span_digits_app s) as E.
+  destruct (span_digits s) as [a b]. subst s. rewrite np_app in *.
+  apply andb_true_iff in H as [Ha Hb]. now rewrite (np_group3 a Ha), Hb.
+Qed.
+
+Lemma np_pad_zeros n s : np s = true -> np (pad_zeros n s) = true.
+Proof. intro H. unfold pad_zeros. rewrite np_app, H, np_repeat by reflexivity. reflexivity. Qed.
+
+Lemma np_py_fixed x prec : np (py_fixed x prec) = true.
+Proof.
+  destruct x as [|n|n m e]; [reflexivity | reflexivity |].
+  rewrite py_fixed_unfold. cbv zeta.
+  pose proof (fixed_scaled_nonneg m e prec) as HD.
+  set (ds := pad_zeros (prec + 1) (nat_digits (fixed_scaled m e prec))).
+  assert (Hds : np ds = true) by (apply np_pad_zeros, np_nat_digits, HD).
+  destruct (prec <=? 0).
+  - now apply np_firstn.
+  - rewrite !np_app, np_firstn, np_skipn by exact Hds. reflexivity.
+Qed.
+
+Lemma div_nonneg a b : 0 <= a -> 0 <= b -> 0 <= a / b.
+Proof.
+  intros Ha Hb. destruct (Z.eq_dec b 0) as [->|Hn]; [rewrite Zdiv_0_r; lia|].
+  apply Z.div_pos; lia.
+Qed.
+
+Lemma shortest_from_nonneg : forall fuel x neg top rest q n,
+  0 <= top -> 0 <= fst (shortest_from x neg top rest q n fuel).
+Proof.
+  induction fuel as [|f IH]; intros x neg top rest q n Ht; [exact Ht|].
+  cbn [shortest_from]. cbv zeta.
+  assert (Hp : 0 <= 10 ^ (topd - n)) by (apply Z.pow_nonneg; lia).
+  pose proof (div_nonneg top (10 ^ (topd - n)) Ht Hp) as Hd.
+  repeat match goal with
+         | |- context [if ?c then _ else _] => destruct c
+         end; cbn [fst]; try lia; apply IH; exact Ht.
+Qed.
+
+Lemma strip10_nonneg : forall fuel c k, 0 <= c -> 0 <= fst (strip10 fuel c k).
+Proof.
+  induction fuel as [|f IH]; intros c k Hc; [exact Hc|].
+  cbn [strip10]. destruct (_ && _); [|exact Hc]. apply IH. apply div_nonneg; lia.
+Qed.
+
+Lemma shortest_nonneg neg m e : 0 < m -> 0 <= fst (shortest neg m e).
+Proof.
+  intro Hm. unfold shortest.
+  destruct (exact_dec m e) as [N q] eqn:E.
+  destruct (exact_dec_nonneg m e N q ltac:(lia) E) as [HN _].
+  unfold top17. destruct (ndigits N <=? topd).
+  - apply shortest_from_nonneg. apply Z.mul_nonneg_nonneg; [lia|]. apply Z.pow_nonneg; lia.
+  - apply shortest_from_nonneg. apply div_nonneg; [lia|]. apply Z.pow_nonneg; lia.
+Qed.
+
+Lemma np_format_repr ds decpt : np ds = true -> np (format_repr ds decpt) = true.
+Proof.
+  intro H. unfold format_repr, zeros.
+  destruct (_ && _).
+  - destruct (decpt <=? 0).
+    + rewrite !np_app, H, np_repeat by reflexivity. reflexivity.
+    + destruct (_ <=? decpt).
+      * rewrite !np_app, H, np_repeat by reflexivity. reflexivity.
+      * rewrite !np_app, np_firstn, np_skipn by exact H. reflexivity.
+  - assert (Ht : np (two_digits (Z.abs (decpt - 1))) = true).
+    { unfold two_digits. destruct (_ <? 10); [rewrite np_cons|]; rewrite np_nat_digits by lia; reflexivity. }
+    destruct ds as [|d [|d2 r]]; rewrite !np_app, Ht.
+    + destruct (decpt - 1 <? 0); reflexivity.
+    + rewrite H. destruct (decpt - 1 <? 0); reflexivity.
+    + change (np (d :: ch_dot :: d2 :: r)) with (np (d :: d2 :: r)). rewrite H.
+      destruct (decpt - 1 <? 0); reflexivity.
+Qed.
+
+Lemma np_py_repr x : np (py_repr x) = true.
+Proof.
+  destruct x as [|n|n m e]; [reflexivity | destruct n; reflexivity |].
+  unfold py_repr. destruct (Z.leb_spec m 0) as [Hm|Hm].
+  - destruct n; reflexivity.
+  - unfold repr_digits.
+    pose proof (shortest_nonneg n m e Hm) as Hs.
+    destruct (shortest n m e) as [c k]. cbn [fst] in Hs.
+    pose proof (strip10_nonneg 20 c k Hs) as Hs'.
+    destruct (strip10 20 c k) as [c' k']. cbn [fst] in Hs'.
+    rewrite np_app, np_format_repr by (now apply np_nat_digits). destruct n; reflexivity.
+Qed.
+
+Lemma np_py_format_num v comma prec body :
+  py_format_num v comma prec = UOk body -> np body = true.
+Proof.
+  destruct v as [z|f|s]; cbn [py_format_num]; [| |discriminate].
+  - destruct prec as [p|]; intro H; inversion H; subst; clear H.
+    + destruct comma; [apply np_group_int_part|]; apply np_py_fixed.
+    + destruct comma; [apply np_group3|]; apply np_nat_digits; lia.
+  - destruct prec as [p|]; intro H; inversion H; subst; clear H.
+    + destruct comma; [apply np_group_int_part|]; apply np_py_fixed.
+    + destruct comma; [apply np_group_int_part|]; apply np_py_repr.
+Qed.
+
+Lemma zlen_tl s : s <> [] -> zlen (tl s) = zlen s - 1.
+Proof. destruct s; [congruence|]. intros _. rewrite zlen_cons. cbn [tl]. lia. Qed.
+
+Lemma zlen_removelast s : s <> [] -> zlen (removelast s) = zlen s - 1.
+Proof.
+  intro H. destruct (exists_last H) as (l & a & ->). rewrite removelast_last, zlen_app.
+  change (zlen [a]) with 1. lia.
+Qed.
+
+(* the text before marking: never contains '%', at least as long as the field *)
+Lemma finish_shape w o neg body :
+  np body = true ->
+  exists r3, np r3 = true /\ w <= zlen r3 /\
+             finish w o neg body = if zlen r3 >? w then ch_pct :: r3 else r3.
+Proof.
+  intro Hb. unfold finish.
+  destruct (match o_sign o with Some p => p | None => (false, ch_minus) end) as [at_end st].
+  cbv zeta.
+  set (sign := if st =? ch_minus then if neg then ch_minus else ch_space
+               else if neg then ch_minus else ch_plus).
+  assert (Hsg : (sign =? ch_pct) = false).
+  { unfold sign. destruct (st =? ch_minus), neg; reflexivity. }
+  set (r1 := if at_end then if sign =? ch_minus then body ++ [sign] else ch_space :: body ++ [sign]
+             else sign :: body).
+  assert (H1 : np r1 = true /\ r1 <> []).
+  { unfold r1. destruct at_end; [destruct (sign =? ch_minus)|];
+      rewrite ?np_cons, ?np_app, ?np_cons, ?Hb, ?Hsg; split; try reflexivity; try discriminate.
+    intro E. apply app_eq_nil in E as [_ E]. discriminate. }
+  destruct H1 as [Hn1 Hne1].
+  set (r2 := if zlen r1 <? w then spaces (Z.to_nat (w - zlen r1)) ++ r1 else r1).
+  assert (H2 : np r2 = true /\ w <= zlen r2 /\ r2 <> []).
+  { unfold r2. destruct (Z.ltb_spec (zlen r1) w).
+    - rewrite np_app, np_spaces, Hn1, zlen_app, zlen_spaces, Z2Nat.id by lia.
+      repeat split; try lia. intro E. apply app_eq_nil in E as [_ E]. contradiction.
+    - repeat split; assumption. }
+  destruct H2 as (Hn2 & Hl2 & Hne2).
+  set (r3 := if (sign =? ch_space) && (zlen r2 >? w) then if at_end then removelast r2 else tl r2
+             else r2).
+  exists r3. split; [|split; [|reflexivity]].
+  - unfold r3. destruct (_ && _); [destruct at_end; [apply np_removelast | apply np_tl]|]; exact Hn2.
+  - unfold r3. destruct (sign =? ch_space); cbn [andb]; [|exact Hl2].
+    destruct (Z.gtb_spec (zlen r2) w); [|exact Hl2].
+    destruct at_end; [rewrite zlen_removelast | rewrite zlen_tl]; try exact Hne2; lia.
+Qed.
+
+Lemma render_num_shape w o v s :
+  render_num w o v = UOk s ->
+  exists r3, np r3 = true /\ w <= zlen r3 /\ s = if zlen r3 >? w then ch_pct :: r3 else r3.
+Proof.
+  intro H.
+  assert (Hns : forall t, v <> UStr t) by (intros t ->; discriminate).
+  rewrite (render_num_finish w o v Hns) in H.
+  destruct (py_format_num v (o_comma o) (code_prec w o)) as [body|k] eqn:E; [|discriminate].
+  inversion H; subst; clear H.
+  apply finish_shape. exact (np_py_format_num _ _ _ _ E).
+Qed.
+
+(* every numeric field, every value: the text is never shorter than the
+   field, and exactly as wide unless it carries the mark *)
+Lemma num_field_width w o v s :
+  render_num w o v = UOk s ->
+  w <= zlen s /\ (hd_error s <> Some ch_pct -> zlen s = w).
+Proof.
+  intro H. destruct (render_num_shape w o v s H) as (r3 & Hn & Hl & ->).
+  destruct (Z.gtb_spec (zlen r3) w).
+  - rewrite zlen_cons. split; [lia|]. intro C. exfalso. apply C. reflexivity.
+  - split; [exact Hl|]. intros _. lia.
+Qed.
+
+(* the mark: present exactly when the text exceeds the field, and then it is
+   "%" followed by the widened text, which alone is already too long *)
+Lemma overflow_mark w o v s :
+  1 <= w -> render_num w o v = UOk s ->
+  (hd_error s = Some ch_pct <-> w < zlen s) /\
+  (w < zlen s -> exists r, s = ch_pct :: r /\ w < zlen r /\ np r = true).
+Proof.
+  intros Hw H. destruct (render_num_shape w o v s H) as (r3 & Hn & Hl & ->).
+  destruct (Z.gtb_spec (zlen r3) w) as [G|G].
+  - rewrite zlen_cons. split.
+    + split; [lia | reflexivity].
+    + intros _. exists r3. repeat split; [lia | exact Hn].
+  - split.
+    + split; [|lia]. intro Hh. exfalso.
+      destruct r3 as [|c r]; [discriminate|]. cbn in Hh. inversion Hh; subst.
+      rewrite np_cons in Hn. discriminate.
+    + lia.
+Qed.
